@@ -14,3 +14,47 @@ package js_parser
 //@ lemma scopeMemberArray_Less_total C08: forall a scopeMemberArray, i int, j int ::
 //@     0 <= i && i < len(a) && 0 <= j && j < len(a) && !a.Less(i, j) && !a.Less(j, i) ==> a[i].Ref == a[j].Ref
 
+
+// ----------------------------------------------------------------------------------------------
+// C09 (F3): the AST cache reuses a parsed file when "Options.Equal" says the options are the same
+// (internal/cache: "every option must take part"). Equal must therefore imply agreement on every
+// option the parser reads. One ensures clause per field of Options (the embedded struct of scalar
+// options is compared wholesale). Not in the view, with reasons: "defines" (documented in the source
+// as pointer-unstable per build and guarded by its own panic); the contents of DefineExpr.Constant
+// (compared by js_ast.ValuesLookTheSame, which is under its own contract); TSAlwaysStrict.Name/Source/
+// Range ("only used for error messages" per its declaration).
+//@ spec func defineExprKeyEq(x config.DefineExpr, y config.DefineExpr) bool = len(x.Parts) == len(y.Parts) &&
+//@     (forall k int :: 0 <= k && k < len(x.Parts) ==> x.Parts[k] == y.Parts[k]) && ((x.Constant == nil) == (y.Constant == nil)) &&
+//@     x.InjectedDefineIndex == y.InjectedDefineIndex
+//@ spec func injectedFileEq(x config.InjectedFile, y config.InjectedFile) bool = x.Source == y.Source && x.DefineName == y.DefineName &&
+//@     x.IsCopyLoader == y.IsCopyLoader && len(x.Exports) == len(y.Exports) &&
+//@     (forall m int :: 0 <= m && m < len(x.Exports) ==> x.Exports[m] == y.Exports[m])
+
+//@ func (*Options).Equal
+//@   arith int
+//@   prop C09
+//@   opt scenario options_equal_jsx
+//@   requires a != nil && b != nil
+//@   ensures structural: result ==> a.optionsThatSupportStructuralEquality == b.optionsThatSupportStructuralEquality
+//@   ensures tsAlwaysStrict: result ==> ((a.tsAlwaysStrict == nil) == (b.tsAlwaysStrict == nil)) &&
+//@       (a.tsAlwaysStrict != nil && b.tsAlwaysStrict != nil ==> a.tsAlwaysStrict.Value == b.tsAlwaysStrict.Value)
+//@   ensures mangleProps: result ==> ((a.mangleProps == nil) == (b.mangleProps == nil)) &&
+//@       (a.mangleProps != nil && b.mangleProps != nil ==> a.mangleProps.expr == b.mangleProps.expr)
+//@   ensures reserveProps: result ==> ((a.reserveProps == nil) == (b.reserveProps == nil)) &&
+//@       (a.reserveProps != nil && b.reserveProps != nil ==> a.reserveProps.expr == b.reserveProps.expr)
+//@   ensures dropLabels: result ==> len(a.dropLabels) == len(b.dropLabels) &&
+//@       (forall k int :: 0 <= k && k < len(a.dropLabels) ==> a.dropLabels[k] == b.dropLabels[k])
+//@   ensures injectedFiles: result ==> len(a.injectedFiles) == len(b.injectedFiles) &&
+//@       (forall k int :: 0 <= k && k < len(a.injectedFiles) ==> injectedFileEq(a.injectedFiles[k], b.injectedFiles[k]))
+//@   ensures jsx-Parse: result ==> a.jsx.Parse == b.jsx.Parse
+//@   ensures jsx-Preserve: result ==> a.jsx.Preserve == b.jsx.Preserve
+//@   ensures jsx-AutomaticRuntime: result ==> a.jsx.AutomaticRuntime == b.jsx.AutomaticRuntime
+//@   ensures jsx-ImportSource: result ==> a.jsx.ImportSource == b.jsx.ImportSource
+//@   ensures jsx-Development: result ==> a.jsx.Development == b.jsx.Development
+//@   ensures jsx-SideEffects: result ==> a.jsx.SideEffects == b.jsx.SideEffects
+//@   ensures jsx-Factory: result ==> defineExprKeyEq(a.jsx.Factory, b.jsx.Factory)
+//@   ensures jsx-Fragment: result ==> defineExprKeyEq(a.jsx.Fragment, b.jsx.Fragment)
+//@   loop 0 invariant len(a.injectedFiles) == len(b.injectedFiles) && (-1 <= rangeindex && rangeindex < len(a.injectedFiles) || (len(a.injectedFiles) == 0 && rangeindex == -1))
+//@   loop 0 invariant forall k int :: 0 <= k && k <= rangeindex ==> injectedFileEq(a.injectedFiles[k], b.injectedFiles[k])
+//@   loop 1 invariant forall m int :: 0 <= m && m <= rangeindex ==> x.Exports[m] == y.Exports[m]
+//@   loop 1 invariant -1 <= rangeindex && rangeindex < len(x.Exports) || (len(x.Exports) == 0 && rangeindex == -1)
